@@ -104,6 +104,7 @@ type Job struct {
 
 type RunLine struct {
 	Start     *int              `json:"start,omitempty"`
+	Recycle   bool              `json:"recycle,omitempty"`
 	Fatal     string            `json:"fatal,omitempty"`
 	Run       int               `json:"run"`
 	Job       int               `json:"job"`
@@ -130,6 +131,7 @@ type RunLine struct {
 }
 
 type workerResult struct {
+	recycled bool
 	lines    []RunLine
 	died     bool
 	inflight int // job id that was running when the process died
@@ -154,7 +156,7 @@ func runWorker(bin, prop string, jobs []Job, procs int, sample int, timeout time
 	os.WriteFile(jf, buf.Bytes(), 0o644)
 	defer os.Remove(jf)
 	cmd := exec.Command(bin, "-test.run", "^TestWorker$", "-test.timeout", "0")
-	cmd.Env = append(os.Environ(), "DST_PROP="+prop, "DST_JOBS="+jf, "DST_PROCS="+strconv.Itoa(procs), "DST_SAMPLE="+strconv.Itoa(sample), "GOTRACEBACK=all")
+	cmd.Env = append(os.Environ(), "DST_PROP="+prop, "DST_JOBS="+jf, "DST_PROCS="+strconv.Itoa(procs), "DST_SAMPLE="+strconv.Itoa(sample), "GOTRACEBACK=all", "GOGC=off")
 	var stdout, stderr bytes.Buffer
 	cmd.Stdout = &stdout
 	cmd.Stderr = &stderr
@@ -194,8 +196,24 @@ func runWorker(bin, prop string, jobs []Job, procs int, sample int, timeout time
 			lastStart = *l.Start
 			continue
 		}
+		if l.Recycle {
+			res.recycled = true
+			continue
+		}
 		finished[l.Job] = true
 		res.lines = append(res.lines, l)
+	}
+	if err == nil && res.recycled && len(res.lines) < len(jobs) {
+		// the worker asked to be replaced by a fresh process (heap bound): run the rest there
+		var rest []Job
+		for _, j := range jobs {
+			if !finished[j.ID] {
+				rest = append(rest, j)
+			}
+		}
+		more := runWorker(bin, prop, rest, procs, sample, timeout)
+		more.lines = append(res.lines, more.lines...)
+		return more
 	}
 	if err != nil || len(res.lines) < len(jobs) {
 		res.died = true
@@ -859,7 +877,11 @@ func cmdSelftest(args []string) {
 		var wg sync.WaitGroup
 		sem := make(chan struct{}, 16)
 		total := 0
-		for _, procs := range []int{1, 4, 16} {
+		// GOMAXPROCS is 1 inside every run by design (parallelism is across worker
+		// processes); what varies here is how many processes compete for the machine.
+		for _, load := range []int{1, 4, 16} {
+			procs := 1
+			sem = make(chan struct{}, load)
 			for rep := 0; rep < *reps; rep++ {
 				for r := 0; r < *seeds; r += 5 {
 					wg.Add(1)
@@ -892,6 +914,7 @@ func cmdSelftest(args []string) {
 					}(procs, r)
 				}
 			}
+			wg.Wait()
 		}
 		wg.Wait()
 		os.Remove(bin)
